@@ -1,5 +1,3 @@
-//go:build wip_c18
-
 package kit
 
 // K6 (AST flavour), part 2: a forward must-analysis of "facts" over go/cfg
@@ -88,24 +86,45 @@ type BoundOb struct {
 	Extra  []*BFact // short-circuit facts local to the expression
 }
 
-// caches are shared by the build configurations analysed concurrently
+// Caches are per loaded program; build configurations and sweep variants are
+// analysed concurrently, and only the most recent programs are kept.
+type progCache struct {
+	bounds map[*Func]*Bounds
+	sums   map[*Func]*Summary
+}
+
 var (
-	cacheMu      sync.Mutex
-	boundsCache  = map[*Func]*Bounds{}
-	summaryCache = map[*Func]*Summary{}
+	cacheMu    sync.Mutex
+	caches     = map[*Prog]*progCache{}
+	cacheOrder []*Prog
 )
+
+// cacheOf returns the cache of p; the caller holds cacheMu.
+func cacheOf(p *Prog) *progCache {
+	if c, ok := caches[p]; ok {
+		return c
+	}
+	c := &progCache{bounds: map[*Func]*Bounds{}, sums: map[*Func]*Summary{}}
+	caches[p] = c
+	cacheOrder = append(cacheOrder, p)
+	for len(cacheOrder) > 16 {
+		delete(caches, cacheOrder[0])
+		cacheOrder = cacheOrder[1:]
+	}
+	return c
+}
 
 func summaryGet(cf *Func) (*Summary, bool) {
 	cacheMu.Lock()
 	defer cacheMu.Unlock()
-	s, ok := summaryCache[cf]
+	s, ok := cacheOf(cf.Prog).sums[cf]
 	return s, ok
 }
 
 func summaryPut(cf *Func, s *Summary) {
 	cacheMu.Lock()
 	defer cacheMu.Unlock()
-	summaryCache[cf] = s
+	cacheOf(cf.Prog).sums[cf] = s
 }
 
 // AnalyseBounds runs the must-analysis and evaluates all obligations of f.
@@ -908,7 +927,9 @@ func (b *Bounds) isParamPtr(o types.Object) bool {
 // killPath handles an assignment to the field path p.
 func (b *Bounds) killPath(fs FactSet, p *BTerm) {
 	if b.isolated(p) {
-		b.killIf(fs, func(t *BTerm) bool { return t.K == TField && strings.HasPrefix(t.key, p.key) && (len(t.key) == len(p.key) || t.key[len(p.key)] == '.') })
+		b.killIf(fs, func(t *BTerm) bool {
+			return t.K == TField && strings.HasPrefix(t.key, p.key) && (len(t.key) == len(p.key) || t.key[len(p.key)] == '.')
+		})
 		return
 	}
 	b.killIf(fs, func(t *BTerm) bool { return t.K == TField && t.Obj == p.Obj && !b.isolated(t) })
@@ -1774,7 +1795,7 @@ func (b *Bounds) nonNilAt(r *ast.ReturnStmt, id *ast.Ident) bool {
 // AnalyseBoundsWith is AnalyseBounds with callee summaries enabled.
 func AnalyseBoundsWith(p *Prog, f *Func, sums func(*Func) *Summary) *Bounds {
 	cacheMu.Lock()
-	if b, ok := boundsCache[f]; ok {
+	if b, ok := cacheOf(p).bounds[f]; ok {
 		cacheMu.Unlock()
 		return b
 	}
@@ -1782,7 +1803,7 @@ func AnalyseBoundsWith(p *Prog, f *Func, sums func(*Func) *Summary) *Bounds {
 		untracked: map[types.Object]bool{}, addrFree: map[types.Object]bool{}, tables: map[types.Object]*ConstTable{},
 		carry: map[*ast.ForStmt][]*BFact{}, before: map[ast.Node]FactSet{}, edgeT: map[*cfg.Block]FactSet{}, in: map[*cfg.Block]FactSet{},
 		summaries: sums}
-	boundsCache[f] = b
+	cacheOf(p).bounds[f] = b
 	cacheMu.Unlock()
 	b.prepare()
 	b.flow()
@@ -1794,6 +1815,6 @@ func AnalyseBoundsWith(p *Prog, f *Func, sums func(*Func) *Summary) *Bounds {
 func ResetBoundsCache() {
 	cacheMu.Lock()
 	defer cacheMu.Unlock()
-	boundsCache = map[*Func]*Bounds{}
-	summaryCache = map[*Func]*Summary{}
+	caches = map[*Prog]*progCache{}
+	cacheOrder = nil
 }
